@@ -384,6 +384,10 @@ func runPair(st *hx.Stats, viol func(string), g *pairGen, n int, reqs []rq, T ui
 		}
 		r.rec.Reset()
 		var err error
+		cnt := r.arr.Count() // the count the bounds of a rejected index are stated against
+		if strings.HasPrefix(q.kind, "c.") {
+			cnt = r.child.Count()
+		}
 		mp := r.m
 		if strings.HasPrefix(q.kind, "d.") {
 			mp = r.d
@@ -485,6 +489,8 @@ func runPair(st *hx.Stats, viol func(string), g *pairGen, n int, reqs []rq, T ui
 			}
 			if !ok {
 				viol(fmt.Sprintf("%s reported %s, want %v", what, hx.ErrKind(err), want))
+			} else if d := pairErrNames(q, err, cnt, uint32(g.climit)); d != "" {
+				viol(fmt.Sprintf("%s: %s", what, d))
 			}
 		default:
 			if !fired {
@@ -605,6 +611,25 @@ func rejectPairStream(cfg *Config) *hx.Stats {
 	atree.VerifSetThreshold(1024)
 	atree.VerifSetMaxCollisionLimitPerDigest(255)
 	return st
+}
+
+// pairErrNames: C18 "returns an error naming that cause": the index and the bounds it violates, the
+// range, the absent key, the collision limit.
+func pairErrNames(q rq, err error, count uint64, climit uint32) string {
+	switch q.bad {
+	case "index":
+		return hx.ErrNames(err, "IndexOutOfBounds", q.i, 0, count)
+	case "range":
+		if strings.HasPrefix(hx.ErrKind(err), "InvalidSliceIndex") {
+			return hx.ErrNames(err, "InvalidSliceIndex", q.i, q.j)
+		}
+		return hx.ErrNames(err, "SliceOutOfBounds", q.i, q.j, 0, count)
+	case "absent":
+		return hx.ErrNames(err, "KeyNotFound", q.k)
+	case "limit":
+		return hx.ErrNames(err, "CollisionLimit", climit)
+	}
+	return ""
 }
 
 func firstDiff(a, b string) string {
